@@ -654,6 +654,10 @@ def _resolve_with_flags(call, flags, tc):
     if not G.get("unresolved"):
         for op in ops:
             if op["kind"] != "vec" and op["ld"] < op["ldmin"]:
+                # gemm/syrk/herk/syr2k/her2k test ldA/ldB only when k > 0 (A, B are not referenced for
+                # k = 0): the wrapper is deliberately lenient there and must then still compute C := beta*C
+                if G.get("betaonly") and call["fn"] in ("gemm", "syrk", "herk", "syr2k", "her2k") and not op["used"]:
+                    continue
                 geo.append("ld")
         for op in ops:
             if op["off"] < 0:
